@@ -35,6 +35,18 @@ pub const ALPHA_MID: &[char] = &['a', 'n', 'i', 'u', '1', '8', '_', '"', '\\', '
 pub const ALPHA_ML: &[char] = &['\\', '\n', ' ', 'a', 'é', '"', '/'];
 pub const ALPHA_ML2: &[char] = &['\\', '\n', ' ', '😀'];
 pub const ALPHA_ML3: &[char] = &['\\', '\n', 'é', 'a', ' '];
+/// characters an editor, an OS or a "robustness" patch may treat specially (BOM and other Cf, Zs, Zl/Zp,
+/// NUL, NEL, FF, VT, CR) next to one representative of the ordinary classes
+pub const ALPHA_SPECIAL: &[char] = &[
+    '\u{feff}', '\u{200b}', '\u{a0}', '\u{2028}', '\u{85}', '\0', '\r', '\n', '\u{c}', ' ', 'a', '1', '"', '/', '\\', '#', '!',
+];
+
+/// things put in front of / behind / inside other texts (the "special first/last character" family)
+pub const SPECIALS: &[&str] = &[
+    "\u{feff}", "\u{fffe}", "\0", "\u{200b}", "\u{2028}", "\u{2029}", "\u{a0}", "\u{85}", "\r", "\r\n", "\n", "\u{c}", "\u{b}",
+    "#!/usr/bin/env goml\n", "#!\n", "\u{feff}\u{feff}", " \u{feff}", "\n\u{feff}", "\u{feff}\n", "\u{feff}#!/bin/goml\n",
+    "\u{202e}", "\u{3000}", "\u{7f}", "\u{fffd}", "\u{10ffff}", "\u{1a}", "\t",
+];
 
 fn hex(bytes: &[u8], out: &mut String) {
     const H: &[u8; 16] = b"0123456789abcdef";
@@ -433,7 +445,7 @@ fn random_text(rng: &mut Rng) -> String {
             // random symbols of the full alphabet
             let n = 5 + rng.below(36);
             for _ in 0..n {
-                s.push(*rng.pick(ALPHA_FULL));
+                s.push(if rng.chance(1, 6) { *rng.pick(ALPHA_SPECIAL) } else { *rng.pick(ALPHA_FULL) });
             }
         }
         1 => {
@@ -468,6 +480,12 @@ fn random_text(rng: &mut Rng) -> String {
             }
         }
     }
+    if rng.chance(1, 5) {
+        s.insert_str(0, *rng.pick(SPECIALS));
+    }
+    if rng.chance(1, 5) {
+        s.push_str(*rng.pick(SPECIALS));
+    }
     s
 }
 
@@ -484,8 +502,13 @@ fn mutate(src: &str, rng: &mut Rng) -> String {
                 cs.drain(a..b);
             }
             1 => {
-                let a = rng.below(n + 1);
-                cs.insert(a, *rng.pick(ALPHA_FULL));
+                let a = if rng.chance(1, 4) { 0 } else { rng.below(n + 1) };
+                if rng.chance(1, 3) {
+                    let t: Vec<char> = rng.pick(SPECIALS).chars().collect();
+                    cs.splice(a..a, t);
+                } else {
+                    cs.insert(a, *rng.pick(ALPHA_FULL));
+                }
             }
             2 if n > 0 => {
                 let a = rng.below(n);
@@ -575,13 +598,59 @@ pub fn build_jobs(args: &util::Args) -> Vec<Job> {
         enumerate(ALPHA_ML2, 8, "exhaustive-multiline2", 5, &mut seen, &mut jobs);
         enumerate(ALPHA_ML3, 7, "exhaustive-multiline3", 0, &mut seen, &mut jobs);
     }
+    enumerate(ALPHA_SPECIAL, if thorough { 4 } else { 3 }, "exhaustive-special", 3, &mut seen, &mut jobs);
     // corpus
     let corpus = corpus_files();
     for (i, (_, t)) in corpus.iter().enumerate() {
         jobs.push(Job { id: format!("c{}", i), stream: "corpus", text: t.clone(), tree: true });
     }
-    // mutants
     let mut rng = Rng::new(args.seed ^ 0xC12);
+    // special first / last / inner characters: every short text (all strings <= 2 over the full alphabet,
+    // the token dictionary, thorough: <= 3) and every corpus file, with each special in front, behind, both,
+    // and (for texts with >= 2 tokens) at a token boundary and inside a token
+    {
+        let mut bases: Vec<String> = Vec::new();
+        let mut tmp_jobs = Vec::new();
+        let mut tmp_seen = HashSet::new();
+        enumerate(ALPHA_FULL, if thorough { 3 } else { 2 }, "tmp", 0, &mut tmp_seen, &mut tmp_jobs);
+        bases.extend(tmp_jobs.into_iter().map(|j| j.text));
+        bases.extend(DICT.iter().map(|s| s.to_string()));
+        bases.push("fn main() -> unit { () }\n".to_string());
+        let n_short = bases.len();
+        bases.extend(corpus.iter().map(|(_, t)| t.clone()));
+        let mut k = 0usize;
+        let mut push = |text: String, tree: bool, jobs: &mut Vec<Job>, seen: &mut HashSet<String>| {
+            if seen.insert(text.clone()) {
+                jobs.push(Job { id: format!("s{}", k), stream: "special-edge", text, tree });
+                k += 1;
+            }
+        };
+        for (bi, b) in bases.iter().enumerate() {
+            for (si, sp) in SPECIALS.iter().enumerate() {
+                // the direct oracles run on all of them; the (slower) tree tie on every short text and on the
+                // first three specials in front of / behind a corpus file, the lexer tie on everything
+                let short = bi < n_short && (b.chars().count() <= 2 || b.len() > 3);
+                push(format!("{}{}", sp, b), short || si < 3, &mut jobs, &mut seen);
+                push(format!("{}{}", b, sp), short || si < 3, &mut jobs, &mut seen);
+                push(format!("{}{}{}", sp, b, sp), short, &mut jobs, &mut seen);
+                if bi >= n_short || b.chars().count() >= 2 {
+                    // at a token boundary and inside a token
+                    let toks = lexer::lex(b);
+                    if toks.len() >= 2 {
+                        let t = &toks[rng.below(toks.len() - 1)];
+                        let at = u32::from(t.range.end()) as usize;
+                        push(format!("{}{}{}", &b[..at], sp, &b[at..]), short, &mut jobs, &mut seen);
+                    }
+                    if let Some(t) = toks.iter().filter(|t| t.text.chars().count() >= 2).nth(0) {
+                        let inner = t.text.char_indices().nth(1).map(|(i, _)| i).unwrap_or(0);
+                        let at = u32::from(t.range.start()) as usize + inner;
+                        push(format!("{}{}{}", &b[..at], sp, &b[at..]), short, &mut jobs, &mut seen);
+                    }
+                }
+            }
+        }
+    }
+    // mutants
     let per_file = args.n.unwrap_or(if thorough { 60 } else { 10 });
     let mut k = 0;
     for (_, t) in corpus.iter() {
